@@ -35,6 +35,7 @@ KINH = "metaflush+reopen/inherited-fragment-attributes-not-persisted"
 KMOVREF = "move/reference-field-keeps-old-name"
 KDEREF = "delete-deref/client-fragment-not-marked-modified"
 KDELREF = "delete/reference-update-not-marked-modified"
+KMOVAFF = "move/codes-without-target-affixes-crash-metaflush"
 
 
 def hx(b):
@@ -895,7 +896,7 @@ def main():
     m = re.search(r"FLUSH_DIGITS (\d+)", tout)
     P = int(m.group(1)) if m else 15
     facts = {}
-    for k_, v_ in re.findall(r"\b(INC_BLANK|NS_RULE|REPRZ|TOK_UNDERFLOW|TOK_ZERO|HIDDEN_SKIPS) (\d)", tout):
+    for k_, v_ in re.findall(r"\b(INC_BLANK|NS_RULE|REPRZ|STRIP_GUARD|TOK_ZERO|HIDDEN_SKIPS) (\d)", tout):
         facts[k_] = (v_ == "1")
     # 2. proofs
     proved = chk.prove("Properties_C07", extra_targets=["Gen/Formats.vo"])
@@ -957,6 +958,8 @@ def main():
             (KREPRZ, ["OPEN 0", "INC 0 %s - %s -" % (hx(b"sub"), hx(b"p")), "ADD PHASE 1 - %s %s 1" % (hx(b"px"), hx(b"pr"))]),
             (KINH, ["OPEN 0", "INC 0 %s - - -" % hx(b"sub"), "FRAGATTR 0 4 -1 0 -1"]),
             (KMOVREF, ["OPEN 0", "INC 0 %s - - %s" % (hx(b"sub"), hx(b"_S")), "ADD RAW 0 - %s 088 1" % hx(b"d"), "MFLUSH", "MOVE %s 1 2" % hx(b"d")]),
+            (KMOVAFF, ["OPEN 0", "INC 0 %s - - %s" % (hx(b"sub"), hx(b"_S")), "ADD CONST 0 - %s 001 5 0" % hx(b"k"),
+                       "ADD PHASE 0 - %s %s 0 S 0 %s -1" % (hx(b"ph"), hx(b"in"), hx(b"k")), "MOVE %s 1 2" % hx(b"ph")]),
             (KDELREF, ["OPEN 0", "INC 0 %s - - -" % hx(b"sub"), "ADD RAW 1 - %s 088 3" % hx(b"d"), "MFLUSH", "DELETE %s 8" % hx(b"d")]),
             (KDEREF, ["OPEN 0", "INC 0 %s - - -" % hx(b"sub"), "ADD CONST 1 - %s 001 8 0" % hx(b"k"),
                       "ADD PHASE 0 - %s %s 0 S 0 %s -1" % (hx(b"ph"), hx(b"in"), hx(b"k")), "MFLUSH", "DELETE %s c" % hx(b"k")])):
@@ -965,15 +968,42 @@ def main():
         c.cmds += cmds
         c.pure = False
         c.wkey = key
+        c.inc = (None, None, b"_S") if key == KMOVAFF else None
         wit.append(c)
     allc = cases + wit
     sc = vlib.scratch("C07-")
     inp = "".join(c.text() for c in allc).encode()
-    rc1, out1 = vlib.sh([exe, sc], inp=inp, timeout=1500)
-    res = parse_out(out1)
-    if rc1 != 0 or len(res) != len(allc):
-        chk.violation("harness", "harness failed rc=%d cases=%d/%d: %s" % (rc1, len(res), len(allc), out1[-400:]), {"kind": "harness"}, found=False)
-        return chk.finish()
+    if os.environ.get("VERIF_C07_DUMP"):
+        open(os.environ["VERIF_C07_DUMP"], "wb").write(inp)
+    # the harness prints and flushes "CASE <id>" first: if it (or the library under it) dies, the last
+    # case seen is the one it died in; that case is recorded and the run continues after it
+    res = {}
+    crashed = []
+    pending = list(allc)
+    while pending:
+        inp = "".join(c.text() for c in pending).encode()
+        rc1, out1 = vlib.sh([exe, sc], inp=inp, timeout=1500)
+        part = parse_out(out1)
+        res.update(part)
+        if rc1 == 0 and len(part) == len(pending):
+            break
+        seen = [c for c in pending if c.cid in part]
+        if not seen or len(crashed) > 40:
+            chk.violation("harness", "harness failed rc=%d: %s" % (rc1, out1[-300:]), {"kind": "harness"}, found=False)
+            return chk.finish()
+        bad = seen[-1]
+        crashed.append((bad, rc1, out1[-200:]))
+        res.pop(bad.cid, None)
+        pending = pending[pending.index(bad) + 1:]
+    for bad, rc1, tail in crashed:
+        rep = {"kind": "crash", "commands": bad.cmds + ["FLUSH", "END"], "rc": rc1,
+               "how": "feed the commands to harness/C07/rt.c <scratch-dir>; the process dies with signal %d" % (-rc1)}
+        if any(x.startswith("MOVE ") for x in bad.cmds) and getattr(bad, "inc", None) and any(bad.inc):
+            chk.violation(KMOVAFF, "gd_move into a fragment with affixes of a field whose input/scalar codes do not carry them is accepted; "
+                          "gd_metaflush then dereferences the NULL that _GD_StripCode returns (_GD_WriteFieldCode -> _GD_TokToNum(NULL)): process died with rc=%d (case %s)" % (rc1, bad.cid), rep)
+        else:
+            chk.violation("crash", "the library crashed (rc=%d) in case %s: %s" % (rc1, bad.cid, tail), rep)
+    allc = [c for c in allc if c.cid in res]
 
     # ---- driver batch: stability of every double literal, model text, model parse of the real lines
     dq = []
@@ -1069,7 +1099,7 @@ def main():
     kinds_seen = {}
     for c in allc:
         r_ = res[c.cid]
-        forced = getattr(c, "wkey", None) if getattr(c, "wkey", None) in (KINC, KNSV, KREPRZ, KINH, KMOVREF, KDEREF, KDELREF) else None
+        forced = getattr(c, "wkey", None) if getattr(c, "wkey", None) in (KINC, KNSV, KREPRZ, KINH, KMOVREF, KDEREF, KDELREF, KMOVAFF) else None
 
         def viol(key, desc, rep, found=True, forced=forced):
             return chk.violation(forced if forced else key, desc, rep, found=(found or bool(forced)))
@@ -1077,7 +1107,8 @@ def main():
                   "how": "feed the commands to harness/C07/rt.c <scratch-dir> (built by vlib.build_harness); compare SNAP A with SNAP B/C"}
         fl = [o for o in r_["ops"]]
         if not hasattr(c, "A") and any(x.startswith("MOVE ") for x in c.cmds) and fl and fl[-1][1:] == ["-6", "-6"]:
-            viol(KMOVREF, "after gd_move of a fragment's reference field gd_metaflush fails with GD_E_INTERNAL_ERROR (the stale /REFERENCE name no longer carries the fragment's affixes), case %s" % c.cid, replay)
+            viol(KMOVAFF if facts.get("STRIP_GUARD") else KMOVREF,
+                 "after gd_move gd_metaflush fails with GD_E_INTERNAL_ERROR: a field code (the stale /REFERENCE name, or an input/scalar code of the moved field) does not carry the fragment's affixes, case %s" % c.cid, replay)
             continue
         if not hasattr(c, "A"):
             # metaflush itself failed or nothing was written
